@@ -4,7 +4,7 @@ from facts import (norm, call_name, short, subnodes, lit_value, matches_on, arm_
                    matches_on_type, pat_lits)
 from prov import Prov, has_field, has_call
 from templates import variant_table, enclosing_contexts
-from tsrules import nulltable_bottom_up, namespace_targets, all_elements
+from tsrules import nulltable_bottom_up, namespace_targets, all_elements, fast_equal_sound
 from c14 import wiring_of, _P as C14P
 
 PR = "nitrogql_printer::"
@@ -135,11 +135,33 @@ def coupling(P, R, rule, f, opt_adt, opt_field, tag):
                     "`| undefined` is added under the same flag as `?`", "%s adds `| undefined` under a different condition than the `?` marker" % f.path, loc=f.loc())
 
 
+def declared_type_direct(P, R, rule, f, adt, tag):
+    """the type handed to get_ts_type_of_type / tested with is_nonnull is the declared type itself: not a projection of it, and not
+    dependent on the default value"""
+    pv = Prov(f)
+    wrap = PR + "ts_types::type_to_ts_type::get_ts_type_of_type"
+    uses = [("converted", c["args"][0]) for c in f.walk() if c.get("k") == "Call" and call_name(c) == wrap]
+    uses += [("tested non-null", c["recv"]) for c in f.walk() if c.get("k") == "MethodCall" and (call_name(c) or "").endswith("Type::is_nonnull")]
+    R.floor(rule, "uses of the declared type in " + tag, len(uses), 2)
+    for what, e in uses:
+        a = pv.atoms(e)
+        fields = {(x[1], x[2]) for x in a if x[0] == "field"}
+        variants = sorted(x[1] for x in a if x[0] == "variant" and "::Type::" in x[1])
+        extra = sorted(x for x in fields if x != (adt, "type") and not x[0].endswith(("VariablesDefinition", "InputObjectTypeDefinition", "ArgumentsDefinition")))
+        R.check(rule, "declared-type-direct:%s:%s" % (tag, what.split()[0]), (adt, "type") in fields and not extra and not variants,
+                "the type %s is exactly the declared `%s.type`" % (what, adt.split("::")[-1]),
+                "%s: the type %s is not the declared type itself (also depends on %s%s): the printed nullability/optionality of an input "
+                "differs from its declaration" % (f.path, what, extra, (" and on a match over " + ", ".join(variants)) if variants else ""), loc=f.loc())
+
+
 def r09c(P, R):
     f = P.fn(PR + "operation_type_printer::type_printer::get_type_for_variable_definitions")
     coupling(P, R, "R09-c", f, OPT, "allow_undefined_as_optional_input", "variables")
+    declared_type_direct(P, R, "R09-c", f, A + "variable::VariableDefinition", "variables")
+    fast_equal_sound(P, R, "R09-c")
     g = P.fn("<" + A + "type_system::InputObjectTypeDefinition as " + PR + "schema_type_printer::type_printer::TypePrinter>::print_type")
     coupling(P, R, "R09-c", g, SOPT, "input_nullable_field_is_optional", "input-object")
+    declared_type_direct(P, R, "R09-c", g, A + "type_system::InputValueDefinition", "input-object")
     all_elements(P, R, "R09-c", g, A + "type_system::InputObjectTypeDefinition", "fields", "input fields")
     e = P.fn("<" + A + "type_system::EnumTypeDefinition as " + PR + "schema_type_printer::type_printer::TypePrinter>::print_type")
     all_elements(P, R, "R09-c", e, A + "type_system::EnumTypeDefinition", "values", "enum members")
